@@ -15,7 +15,7 @@ TX_IFACE = {"pkgpath": "github.com/ProtonMail/gluon/db", "iface": "Transaction"}
 COMPONENTS = {
     "state_export": {"dir": "internal/state", "pkgname": "state", "files": ["zz_verif_fixture.go", "zz_verif_export.go"], "vsym": True,
                      "gen_stubs": [dict(TX_IFACE, type="verifTxBase")]},
-    "backend_export": {"dir": "internal/backend", "pkgname": "backend", "files": ["zz_verif_export.go", "zz_verif_backend.go", "zz_verif_c02.go"], "vsym": True,
+    "backend_export": {"dir": "internal/backend", "pkgname": "backend", "files": ["zz_verif_export.go", "zz_verif_export2.go", "zz_verif_backend.go", "zz_verif_c02.go"], "vsym": True,
                        "gen_stubs": [{"pkgpath": "github.com/ProtonMail/gluon/connector", "iface": "Connector", "type": "verifConnBase"}]},
     "verifdb": {"dir": "internal/verifdb", "pkgname": "verifdb", "files": ["db.go", "tx.go"], "vsym": True,
                 "gen_stubs": [dict(TX_IFACE, type="txBase")]},
@@ -259,6 +259,11 @@ CHECKS["C02"] = {
          "extra_overlay": {"internal/response/zz_verif_decode.go": "internal/response/zz_verif_decode.go"},
          "params": {"quick": grid(k=[1, 2]), "thorough": grid(k=[3])},
          "cover": ["wire-probed", "wire-fresh-compared"]},
+        {"name": "wireconnector", "pkg": "internal/session", "pkgname": "session", "entry": "VerifC02WireConnector", "files": ["zz_verif_c18.go", "zz_verif_c18b.go", "zz_verif_c01.go", "zz_verif_c01idle.go", "zz_verif_c01idle2.go", "zz_verif_c01wire.go", "zz_verif_c02wire.go"],
+         "with": ["state_export", "backend_export", "verifdb"], "goroutines": True, "concrete_time": True, "replay_timeout_s": 90,
+         "extra_overlay": {"internal/response/zz_verif_decode.go": "internal/response/zz_verif_decode.go"},
+         "params": {"quick": grid(k=[1, 2]), "thorough": grid(k=[3, 4])},
+         "cover": ["wire-fresh-compared"]},
         {"name": "session", "pkg": "internal/session", "pkgname": "session", "entry": "VerifC01Session", "files": ["zz_verif_c18.go", "zz_verif_c18b.go", "zz_verif_c01.go"],
          "with": ["state_export", "backend_export", "verifdb"],
          "extra_overlay": {"internal/response/zz_verif_decode.go": "internal/response/zz_verif_decode.go"},
@@ -509,3 +514,5 @@ CHECKS["C18"]["explanation"] = CHECKS["C18"].get("explanation", "") + " VerifC18
 CHECKS["C20"]["explanation"] += " VerifC20Wire: on the wire through the real session loop: an APPEND the remote side refuses is answered NO, the recovery mailbox is listed, selectable, holds one message whose BODY[] ends with exactly the appended bytes; an accepted APPEND of the same bytes is answered OK and found in the mailbox."
 
 CHECKS["C10"]["explanation"] += " VerifC10WireChunks: a fixed conversation (LOGIN with synchronising literals, SELECT, UID FETCH with a header-field list, STORE with a flag list, LOGOUT) delivered through the real net.Conn -> bufio -> input collector -> scanner -> parser -> session loop stack with one [two] cuts at arbitrary positions: the session writes exactly what it writes when all bytes arrive at once."
+
+CHECKS["C02"]["explanation"] += " VerifC02WireConnector: a client on the wire has INBOX selected while the connector delivers MessagesCreated / MessageFlagsUpdated / MessagesDeleted through the real backend appliers and the real update queue; mirror, wire probe and fresh-session comparison as in the two-client harness."
